@@ -102,6 +102,11 @@ def run(ctx, out):
                 d.add((f, _EX.p0, v))
             d.add((f, _EX.p0, _L("lit %d" % k)))
         cases.append(("qualified-far-apart", g, d))
+    # SPARQL-based constraints and constraint components (the second loop of Shape.validate has its own abort point)
+    from props import c05
+    for _ in range(40 if quick else 500):
+        sg_, dg_, _tm = c05.gen_case(rng)
+        cases.append(("sparql-components", sg_, dg_))
     out.rule = ("multi-shape, multi-constraint and nested inputs x abort_on_first {off,on} x the 4 severity option combinations; "
                 "non-trivial = distinct non-conforming case whose abort run reports fewer results than the complete run")
     lines = []
@@ -122,7 +127,8 @@ def run(ctx, out):
             out.traces += 2
             m_full = vcase.parse_model(replies["c%d_%d_0" % (i, j)])
             m_ab = vcase.parse_model(replies["c%d_%d_1" % (i, j)])
-            d = vcase.compare(full, m_full, sg, with_detail=True)
+            no_tables = label == "sparql-components"      # (A) for SPARQL-based components needs the engine's tables: C05's check
+            d = None if no_tables else vcase.compare(full, m_full, sg, with_detail=True)
             if d:
                 out.a_mismatch.append({"case": dict(case, options=o_full), "diff": d[:1000], "op": "validate"})
             if full[0] != "ok" or ab[0] != "ok":
@@ -130,7 +136,7 @@ def run(ctx, out):
                     out.b_fail.append({"signature": "C12:abort-raises:" + ab[1], "case": dict(case, options=o_ab)})
                 out.count("code_err")
                 continue
-            if m_ab[0] == "ok" and m_ab[1] != ab[1]:
+            if not no_tables and m_ab[0] == "ok" and m_ab[1] != ab[1]:
                 out.a_mismatch.append({"case": dict(case, options=o_ab), "diff": "abort verdict: code %s model %s" % (ab[1], m_ab[1]), "op": "validate"})
             if ab[1] != full[1]:
                 out.b_fail.append({"signature": "C12:verdict-differs", "case": dict(case, options=o_ab), "abort": ab[1], "complete": full[1]})
